@@ -41,7 +41,7 @@ RULE = (
     "mode, dictionary); non-trivial = the dictionary selects an overload, a pre-set/default option or a template."
 )
 ASSUMPTIONS = ["graphs are built from importable module-level functions in explicit dataset(f) form; the decorator form is the recorded finding pickle-decorator-form-dataset"]
-FLOORS = {"warm_memo_roundtrips": (6, 18), "warm_memo_children": (6, 18), "wired_together_checks": (12, 12), "roundtrips": (78, 78), "outcomes_compared": (3000, 3000), "child_interpreters": (26, 78), "post_load_registrations": (30, 30),
+FLOORS = {"warm_memo_roundtrips": (6, 18), "warm_memo_children": (6, 18), "wired_together_checks": (12, 12), "roundtrips": (90, 90), "outcomes_compared": (3700, 3700), "child_interpreters": (30, 90), "post_load_registrations": (36, 36),
           "unpickled_register_schedules": (150, 1500)}
 SHARDS_QUICK = 2
 SHARDS_THOROUGH = 4
@@ -139,13 +139,14 @@ def post_load_usable(ctx, name, g2):
         return
     before = dict(g.overloads.lookup)
     try:
-        g2.register("late", Value(("registered-late",)))
-        g2.overload("late2")(M.late_overload)
+        # (aliases no dictionary of the corpus uses: a value stored before the registration would legitimately be served)
+        g2.register("post-load", Value(("registered-late",)))
+        g2.overload("post-load-2")(M.late_overload)
         from .. import universe as U
 
         dkey = M.DISPATCH_KEY.get(name, "D")
-        v1 = observe(g2.evaluate, U.set_path({"C": 1}, dkey, "late"))
-        v2 = observe(g2.evaluate, U.set_path({"C": 1, "E": "ee"}, dkey, "late2"))
+        v1 = observe(g2.evaluate, U.set_path({"C": 1}, dkey, "post-load"))
+        v2 = observe(g2.evaluate, U.set_path({"C": 1, "E": "ee"}, dkey, "post-load-2"))
     except Exception as e:  # noqa: BLE001
         ctx.violation("copy-not-usable", f"{name}: registering on the unpickled copy raised {type(e).__name__}: {e}", {"graph": name})
         return
